@@ -175,7 +175,8 @@ func c11Scenarios() []scenario {
 	var out []scenario
 	decls := c10Decls()
 	ops := c10Ops()
-	bal := env.Bal{"a": {"USD": bi(6), "EUR": bi(3)}, "b": {"USD": bi(5)}, "x": {"USD": bi(2)}}
+	// (the ledger's own figure for @world is in the store: it must never matter)
+	bal := env.Bal{"a": {"USD": bi(6), "EUR": bi(3)}, "b": {"USD": bi(5)}, "x": {"USD": bi(2)}, "world": {"USD": bi(-100)}}
 	meta := env.Meta{"b": {"acc": "a"}}
 	for di := -1; di < len(decls); di++ {
 		for _, op := range ops {
@@ -212,6 +213,13 @@ func c11Scenarios() []scenario {
 		// an asset the store has no entry for, on an account it knows in another asset
 		prog = &gen.Program{Stmts: []gen.Stmt{sendN("EUR", "2", lst(sa("b"), sa("world")), da("x"))}}
 		out = append(out, scenario{Name: "asset-unknown-for-known-account", Text: gen.Text(prog), Vars: map[string]string{}, Bal: bal, Meta: meta})
+		// a declaration with an origin written BEFORE one the caller supplies
+		prog = &gen.Program{Vars: []*gen.VarDecl{originDecl("monetary", "m", "balance", gen.Acct("a"), gen.Asset("USD")), {Type: &gen.TypeName{Name: "account"}, Name: gen.V("w")},
+			originDecl("account", "v", "meta", gen.Acct("b"), gen.Str("acc")), {Type: &gen.TypeName{Name: "string"}, Name: gen.V("s")}},
+			Stmts: []gen.Stmt{&gen.Send{Sent: &gen.SentLit{E: gen.V("m")}, Src: lst(&gen.SrcAccount{E: gen.V("w")}, &gen.SrcAccount{E: gen.V("v")}), Dst: da("x")},
+				&gen.Call{Name: "set_tx_meta", Args: []gen.Expr{gen.Str("k"), gen.V("s")}}}}
+		// ... and a string value with blanks around it (the caller's map must keep it as it is)
+		out = append(out, scenario{Name: "origin-before-plain", Text: gen.Text(prog), Vars: map[string]string{"w": "b", "s": " padded \n"}, AltVars: map[string]string{"w": "a", "s": "other"}, Bal: bal, Meta: meta})
 		// metadata of an account the store knows nothing about (the run fails; the store must stay as it was)
 		prog = &gen.Program{Vars: []*gen.VarDecl{originDecl("account", "v", "meta", gen.Acct("zz"), gen.Str("acc"))},
 			Stmts: []gen.Stmt{sendN("USD", "1", &gen.SrcAccount{E: gen.V("v")}, da("x"))}}
@@ -631,7 +639,7 @@ func runC11(w *mc.Worker) {
 	}
 
 	// ---------------------------------------------------------------- free-running race pass
-	w.Stage("race-pass", "free-running pass of the same bodies under the Go race detector (supporting evidence, not exhaustive): 4 goroutines x 25 iterations per scenario, private stores and one shared StaticStore", func() {
+	w.Stage("race-pass", "free-running pass of the same bodies under the Go race detector (supporting evidence, not exhaustive): 5 rounds per scenario on a freshly parsed script (so that first Runs are concurrent too), 4 goroutines x 10 iterations, private stores and one shared StaticStore", func() {
 		w.Outer("race-pass/run", 0, func(o *mc.Explorer) {
 			if !w.IsReplay() && w.Rank != 0 {
 				return
@@ -685,12 +693,14 @@ func runC11(w *mc.Worker) {
 // RacePass is the body of the free-running -race binary (VERIF_RACE_PASS=1).
 func RacePass() {
 	for _, sc := range c11Scenarios() {
-		pr, ok := parseQuiet(sc.Text)
-		if !ok {
+		if _, ok := parseQuiet(sc.Text); !ok {
 			continue
 		}
 		fmt.Println("race-pass-scenario")
-		for _, sharedStore := range []bool{false, true} {
+		for round, sharedStore := range []bool{false, true, false, true, false} {
+			// a freshly parsed script each round: the first Runs on it are concurrent too
+			pr := numscriptParse(sc.Text)
+			_ = round
 			var shared interpreter.Store
 			if sharedStore {
 				shared = sharedStatic(env.New(env.Static, sc.Bal, sc.Meta))
@@ -704,7 +714,7 @@ func RacePass() {
 				}
 				go func() {
 					defer wg.Done()
-					for i := 0; i < 25; i++ {
+					for i := 0; i < 10; i++ {
 						if shared != nil {
 							// the shared StaticStore: call the bundled store directly (the logging wrapper has its own counters)
 							RunReal(pr, copyVars(gv), shared, overdraftOn)
